@@ -42,7 +42,7 @@ Decided statically on the CFG of every instantiated member (payloads int / doubl
 """
 import re
 
-from rkstatic.x_sync import Sync, LockState, Inliner, Hooks, CALLS, last, is_atomic_type
+from rkstatic.x_sync import Sync, LockState, Inliner, Hooks, CALLS, last, is_atomic_type, fty_noexcept
 
 LEVEL = 'other'
 EXPLANATION = (
@@ -353,13 +353,20 @@ def check_guarded(ctx, tu, sy, rec, T, f, counts):
         ev = sy.event(e)
         n = tu.node(e[1]) if e[0] == 'S' else None
         if ev is not None and ev[0] in LOCK_EVENTS:
+            again = (ev[0] == 'locks' and any(m_ == mutex and h_ is True for _v, m_, h_, _x in ev[1])) or \
+                    (ev[0] in ('m-lock', 'lk-lock') and (ev[1] == mutex or dict(known).get(ev[1]) == mutex))
+            if again and LockState.holds(locks, mutex):
+                chain = [x['q'].split('::')[-1] for x in inl.stack]
+                found.viol(R5, fn_short(f), 'mutex-locked-again', '%s is locked a second time while it is still held (%s): std::mutex is '
+                           'not recursive - undefined behaviour, in practice the thread blocks on itself for ever with the mutex held, '
+                           'and every other member blocks behind it' % (T['mutex'], ' -> '.join(chain) or name), n)
             locks, known = lock_step(sy, rec, T, locks, known, ev, n, found, R1)
             return [(locks, known)]
         if n is None:
             return [st]
         if n.get('kind') in CALLS and ('direct', mutex) in locks:
             sdn = tu.sd(n)
-            if 'noexcept' not in (sdn.get('fty') or '').rsplit(')', 1)[-1] and sdn.get('rec') not in ('std::mutex', 'std::atomic', 'std::__atomic_base') \
+            if not fty_noexcept(sdn.get('fty') or '') and sdn.get('rec') not in ('std::mutex', 'std::atomic', 'std::__atomic_base') \
                     and sdn.get('q') not in ('std::move', 'std::forward') and sdn.get('fty'):
                 found.viol(R5, fn_short(cur_fn()), 'lock-held-across-throwing-call', '%s is locked with a bare %s.lock() and %s can throw '
                            '(std::bad_alloc, a throwing copy of the payload) before the matching unlock(): the exception leaves the '
@@ -510,7 +517,7 @@ def check_buffer_ops(ctx, tu, sy, f, counts):
 
         def throwing_assign(node):
             if node.get('kind') in ('CXXOperatorCallExpr', 'CXXMemberCallExpr', 'CallExpr'):
-                return 'noexcept' not in (tu.sd(node).get('fty') or '').rsplit(')', 1)[-1]
+                return not fty_noexcept(tu.sd(node).get('fty'))
             return False
 
         def is_last_slot(e):
@@ -721,6 +728,23 @@ def check_buffer_ops(ctx, tu, sy, f, counts):
                 return 'all'
             return None
 
+        def whole_range(a, b):
+            """(buffer.begin(), buffer.end()), each possibly wrapped in std::make_move_iterator / an iterator conversion"""
+            def it(x):
+                x = tu.strip(x, casts=True)
+                for _ in range(4):
+                    if x is None:
+                        return None
+                    if x.get('kind') == 'CallExpr' and tu.sd(x).get('q') == 'std::make_move_iterator' and len(tu.kids(x)) == 2:
+                        x = tu.strip(tu.kids(x)[1], casts=True)
+                    elif x.get('kind') in ('CXXConstructExpr', 'CXXTemporaryObjectExpr') and len(tu.kids(x)) == 1:
+                        x = tu.strip(tu.kids(x)[0], casts=True)
+                    else:
+                        break
+                bc_ = buffer_call(tu, sy, x, fld) if x is not None else None
+                return bc_[0] if bc_ is not None else None
+            return it(a) in ('begin', 'cbegin') and it(b) in ('end', 'cend')
+
         def classify_return(e, st):
             """(what a returned expression hands out: 'contents' | 'stale' | 'other' | None = not recognised, moved the buffer out?)
             holders / stale also contain the call expressions of followed helpers and closures that returned such a value"""
@@ -804,6 +828,9 @@ def check_buffer_ops(ctx, tu, sy, f, counts):
                         holders = frozenset(set(holders) | {v['id']})
                         if is_move(tu, sy, init):
                             bufst = 'empty'
+                    elif init.get('kind') == 'CXXConstructExpr' and len([a_ for a_ in tu.kids(init) if (tu.strip(a_) or {}).get('kind') != 'CXXDefaultArgExpr']) == 2 \
+                            and whole_range(tu.kids(init)[0], tu.kids(init)[1]):
+                        holders = frozenset(set(holders) | {v['id']})      # vector(buffer.begin(), buffer.end()): every element
                     elif init is not None and sy.mentions_field(init, fld):
                         found.und(R2, 'local vector initialised from the buffer in a form that is not modelled', n)
                 return [(bufst, holders, fresh, ret, locks, known, epoch, taints, stale, branched)]
@@ -1003,6 +1030,16 @@ def check_update(ctx, tu, sy, f, counts):
                        'that value is never delivered', node)
         return (locks, known, flag, inst, False, False, vars_)
 
+    def installs_later_may_throw(reset_node):
+        """name of a potentially throwing install (currentValue <- queuedValue) in this function, if the function has one"""
+        for fn in inl.reachable_fns(f):
+            for _b, _i, x in tu.cfg(fn).stmts():
+                w = sy.plain_write(x) if x.get('kind') in ('BinaryOperator', 'CXXOperatorCallExpr') else None
+                if w is not None and w[0] == CURRENT and sy.mentions_field(w[2], QUEUED) and x.get('kind') == 'CXXOperatorCallExpr' and \
+                        not fty_noexcept(tu.sd(x).get('fty')):
+                    return tu.sd(x).get('q') or 'payload assignment'
+        return None
+
     def flag_value(e, vars_):
         """abstract value of a boolean expression: True / False (constant), ('flag', polarity) = the value of the flag as this
         path observed it, or None.  A read of the flag made after update() has reset it yields false (the reset is the last
@@ -1060,10 +1097,23 @@ def check_update(ctx, tu, sy, f, counts):
                 d = dict(vars_)
                 d[var] = flag_value(tu.kids(n)[1], vars_)
                 return [(locks, known, flag, inst, iscope, rscope, frozenset(d.items()))]
+        if ev is not None and ev[0] == 'rmw' and ev[1] == FLAG:
+            if ev[2] in ('operator--', 'fetch_sub', 'operator-='):
+                found.viol(R3, FN, 'pending-count-decremented', 'update() lowers the pending indicator by one (%s) instead of resetting it: '
+                           'the queued slot holds only the latest of k assignments, so after k > 1 assignments and this one install the '
+                           'indicator is still non-zero - the next update() returns true and installs the moved-from slot, a value '
+                           'nobody assigned' % ev[2], ev[3])
+                return [(locks, known, flag, inst, iscope, True, vars_)]
+            return [st]         # (other read-modify-writes on the indicator: left to R-C12-1 as before)
         if ev is not None and ev[0] == 'store':
             _k, fld, val, order, node = ev
             if fld == FLAG:
                 if val is False:
+                    if not inst and installs_later_may_throw(node):
+                        found.viol(R3, FN, 'flag-reset-before-install', 'update() lowers the flag before it installs the queued value, and '
+                                   'the install can throw (%s): when it does, the flag is already down although currentValue was not '
+                                   'updated - the value is never delivered (the producer has stopped: the consumer never obtains the '
+                                   'last value)' % installs_later_may_throw(node), node)
                     # `flag` keeps what the path *observed*; our own reset does not change that
                     d = dict(vars_)
                     d['$reset'] = True
@@ -1181,8 +1231,11 @@ def check_flag_init(ctx, tu, sy, f, counts):
         k = init.get('kind')
         if k == 'CXXDefaultInitExpr':
             fd = tu.node(e[2])
-            lits = [x for x in tu.walk(fd) if x.get('kind') == 'CXXBoolLiteralExpr'] if fd is not None else []
-            return bool(lits[0].get('value')) if len(lits) == 1 else None
+            lits = [x for x in tu.walk(fd) if x.get('kind') in ('CXXBoolLiteralExpr', 'IntegerLiteral')] if fd is not None else []
+            if len(lits) == 1:
+                v_ = lits[0].get('value')
+                return bool(v_) if lits[0]['kind'] == 'CXXBoolLiteralExpr' else str(v_) != '0'
+            return None
         x = tu.strip(init, casts=True)
         while x is not None and x.get('kind') in ('InitListExpr', 'CXXConstructExpr', 'CXXTemporaryObjectExpr'):
             ks = tu.kids(x)
@@ -1249,7 +1302,7 @@ def check_assign(ctx, tu, sy, f, counts):
     def may_throw(node):
         """can the value store leave by an exception?  (built-in assignment cannot; a call can unless declared noexcept)"""
         if node.get('kind') in ('CXXOperatorCallExpr', 'CXXMemberCallExpr', 'CallExpr'):
-            return 'noexcept' not in (tu.sd(node).get('fty') or '').rsplit(')', 1)[-1]
+            return not fty_noexcept(tu.sd(node).get('fty'))
         return False
 
     # state: (locks, known, queued_in_scope, flagged_in_scope, done)
@@ -1271,6 +1324,8 @@ def check_assign(ctx, tu, sy, f, counts):
             return [st2]
         if own_call(tu, n, VAL):
             found.und(R4, 'assignment delegates to the member %s(): not modelled' % own_call(tu, n, VAL), n)
+        if ev is not None and ev[0] == 'rmw' and ev[1] == FLAG and ev[2] in ('operator++', 'fetch_add', 'operator+='):
+            ev = ('store', FLAG, True, 5, ev[3])       # a counting indicator is raised by an increment
         gw = generic_write(tu, n) if (dbv_member(tu) is not None and (ev is None or ev[0] == 'call')) else None
         if gw is not None and slot_of(tu, sy, gw[0], arefs) == 'queued':
             ev = ('store', QUEUED, None, 5, n)
@@ -2063,6 +2118,11 @@ def check_indicator_type(ctx, tu, rec, T, r, names, counts):
     R-C12-3/4): it is true exactly while there are assignments that update() has not installed"""
     counts[R3] += 1
     ty = names['newValue']
+    inty = ty.replace('std::atomic<', '').rstrip('>').strip()
+    if inty in ('int', 'unsigned int', 'long', 'unsigned long', 'short', 'unsigned short', 'unsigned char', 'signed char', 'char'):
+        ctx.ok(R3, '%s pending indicator' % r['q'].replace('rkcommon::utility::', ''), 'newValue is a %s: raised by the producer, has to be '
+               'reset to zero by the consumer (R-C12-3 checks the reset)' % ty, T['file'])
+        return
     if ty in ('bool', 'std::atomic<bool>'):
         ctx.ok(R3, '%s pending indicator' % r['q'].replace('rkcommon::utility::', ''), 'newValue is a %s set by the producer and cleared '
                'by the consumer' % ty, T['file'])
